@@ -33,8 +33,8 @@ type Scenario struct {
 	PluginAPI    bool // --generate-plugin-api
 	// C17
 	FailModule int    // index of the file that fails (-1: none)
-	FailKind   string // "generate" or "compile"
-	OutsideRoot bool  // an included file lies outside the explicit thrift root
+	FailKind   string // "gen-reserved", "gen-goname" or "compile"
+	RootRel    string // explicit thrift root relative to the sandbox ("" with ExplicitRoot=false: automatic)
 	// simulator knobs
 	Strat    simrt.Strategy
 	SwitchP  float64
@@ -45,8 +45,8 @@ type Scenario struct {
 
 func (sc *Scenario) describe() []string {
 	var out []string
-	out = append(out, fmt.Sprintf("options: explicit-root=%v no-recurse=%v output-file=%q plugin-api=%v fail-module=%d(%s) outside-root=%v",
-		sc.ExplicitRoot, sc.NoRecurse, sc.OutputFile, sc.PluginAPI, sc.FailModule, sc.FailKind, sc.OutsideRoot))
+	out = append(out, fmt.Sprintf("options: explicit-root=%v(%q) no-recurse=%v output-file=%q plugin-api=%v fail-module=%d(%s)",
+		sc.ExplicitRoot, sc.RootRel, sc.NoRecurse, sc.OutputFile, sc.PluginAPI, sc.FailModule, sc.FailKind))
 	out = append(out, fmt.Sprintf("simulator: strategy=%d switchP=%.2f preempt=%v chunkP0=%.2f fastPathFrameSize=%d", sc.Strat, sc.SwitchP, sc.Preempt, sc.ChunkP0, sc.FastPath))
 	for _, p := range sc.Plugins {
 		out = append(out, "plugin "+p.String())
@@ -152,11 +152,20 @@ func genScenario(o world.Opts) *Scenario {
 	sc := &Scenario{FailModule: -1}
 	sc.Prog = progen.Gen(progen.Options{MaxFiles: 3, MaxDefs: 4, WantService: true, Exceptions: true, Unions: true})
 	sc.ExplicitRoot = simrt.Flip("opt.explicit-root", 0.3)
+	if sc.ExplicitRoot {
+		sc.RootRel = "thrift"
+		if cd := commonDir(sc.Prog); cd != "" {
+			sc.RootRel = "thrift/" + cd
+		}
+	}
 	sc.NoRecurse = simrt.Flip("opt.no-recurse", 0.15)
 	np := simrt.ChoiceBias("plugins.n", 4, 0.1)
 	faultP := []float64{0, 0.08, 0.25}[simrt.Choice("plugins.fault-rate", 3)]
 	for i := 0; i < np; i++ {
 		sc.Plugins = append(sc.Plugins, genScript([]string{"plgalpha", "plgbeta", "plggamma"}[i], faultP, i))
+	}
+	if o.Prop == "C17" {
+		genC17(sc)
 	}
 	genSimKnobs(sc)
 	return sc
@@ -281,7 +290,7 @@ func RunOne(cfg simrt.Config, o world.Opts) *world.Result {
 		}
 		args := []string{"thriftrw", "--out", env.Out, "--pkg-prefix", "example.com/gen"}
 		if sc.ExplicitRoot {
-			args = append(args, "--thrift-root", filepath.Join(env.Thrift, filepath.FromSlash(commonDir(sc.Prog))))
+			args = append(args, "--thrift-root", filepath.Join(env.Root, filepath.FromSlash(sc.RootRel)))
 		}
 		if sc.NoRecurse {
 			args = append(args, "--no-recurse")
@@ -314,9 +323,11 @@ func RunOne(cfg simrt.Config, o world.Opts) *world.Result {
 
 	res.FromSim(s)
 	after := world.Snapshot(env.Root)
-	checkC16(res, s, sc, logs, &host, env)
-	_ = after
-	_ = before
+	if o.Prop == "C17" {
+		checkC17(res, s, sc, logs, &host, env, before, after)
+	} else {
+		checkC16(res, s, sc, logs, &host, env)
+	}
 
 	// determinism hash and distinctness key
 	h := world.NewHasher()
